@@ -124,6 +124,8 @@ def havoc_modified(engine, st, stmt, names, paths):
                 raise Unsupported(f"loop rebinds object variable {n}")
         elif isinstance(cur, V):
             st.vars[n] = engine.havoc_t(st, cur.t, f"lh.{n}", stmt)
+        elif isinstance(cur, PyConst) and isinstance(cur.val, tuple) and cur.val and cur.val[0] == "exc":
+            st.vars[n] = PyConst(("exc", "Exception"))  # some caught exception
         elif isinstance(cur, PyConst):
             raise Unsupported(f"loop rebinds python-constant variable {n}")
     for p in sorted(paths):
